@@ -289,20 +289,25 @@ def _worker_init():
 
 
 def _worker_run(chunk):
-    out = []
+    from . import dtpipe
+    out, sw = [], []
     for culture, query, ref in chunk:
         model = _TREE.model(culture)
+        rec = dtpipe.instrument(model)     # notes what DateTimeModel.parse's `except Exception: pass` swallows
+        del rec[:]
         try:
             rs = model.parse(query, datetime.datetime(*ref))
             out.append([(r.start, r.end, r.text, r.type_name, values_str(r.resolution), r.resolution) for r in rs])
         except Exception as e:  # the public API raising is itself observable
             out.append('raised %s: %s' % (type(e).__name__, e))
-    return out
+        sw.append(list(rec[0]) if rec else None)
+    return out, sw
 
 
 def run_queries(cases, nproc=None, chunk=120):
     """cases: [(culture, query, (y,m,d,h,mi,s))] -> per case a list of (start, end, text, type, values_str, resolution)
-    or a string 'raised …'. A culture's cases are cut into few, even chunks (about `chunk` queries each, at most one
+    or a string 'raised …'.  Whether `DateTimeModel.parse` swallowed an exception on a case is recorded on the side
+    (`dtpipe.LAST_SWALLOWED`, `dtpipe.swallowed_summary()`). A culture's cases are cut into few, even chunks (about `chunk` queries each, at most one
     per process) so that a process builds few models (building one costs 1-5 s)."""
     nproc = nproc or min(16, os.cpu_count() or 4)
     by = {}
@@ -319,7 +324,12 @@ def run_queries(cases, nproc=None, chunk=120):
     with ctx.Pool(nproc, initializer=_worker_init) as pool:
         res = pool.map(_worker_run, [[cases[i] for i in ch] for ch in chunks], chunksize=1)
     out = [None] * len(cases)
-    for ch, rr in zip(chunks, res):
-        for i, r in zip(ch, rr):
-            out[i] = r
+    sw = [None] * len(cases)
+    for ch, (rr, ss) in zip(chunks, res):
+        for i, r, s in zip(ch, rr, ss):
+            out[i], sw[i] = r, s
+    # swallowed exceptions: kept next to dtpipe's (dtpipe.LAST_SWALLOWED is aligned with `cases`; dtpipe.swallowed_summary()
+    # is what a check puts into its evidence)
+    from . import dtpipe
+    dtpipe._note([(c, q, datetime.datetime(*r)) for c, q, r in cases], sw)
     return out
